@@ -61,6 +61,10 @@ class FakeSock:
         c = self.incoming.pop(0)
         if isinstance(c, str):
             if c == "timeout":
+                if self.timeout == 0:
+                    # a non-blocking transport has no timeouts: "nothing there yet" is EAGAIN
+                    import errno
+                    raise BlockingIOError(errno.EAGAIN, "Resource temporarily unavailable")
                 raise _socket.timeout("timed out")
             if c == "eof":
                 self.incoming.insert(0, "eof")
@@ -104,9 +108,14 @@ class FakeSock:
                 self._at_boundary = True
                 if a == "timeout":
                     raise _socket.timeout("timed out")
+                if a == "wouldblock":  # nothing accepted right now (EAGAIN): the frame position does not move
+                    self._at_boundary = getattr(self, "_was_boundary", True)
+                    import errno
+                    raise BlockingIOError(errno.EAGAIN, "Resource temporarily unavailable")
                 raise BrokenPipeError(32, "Broken pipe")
             k = min(a, n)
         self._at_boundary = bool(k == n)
+        self._was_boundary = self._at_boundary
         self.sent.append(data[:k])
         self.log.append(("send", k))
         return k
@@ -279,6 +288,34 @@ class FakeOs:
 
     def __getattr__(self, k):
         return getattr(self._real, k)
+
+
+class ReadySelectors:
+    """the name `selectors` for FakeSock runs: a transport that reported would-block is ready again at once"""
+    EVENT_READ, EVENT_WRITE = 1, 2
+
+    def __init__(self):
+        import selectors
+        self._real = selectors
+
+    def __getattr__(self, k):
+        return getattr(self.__dict__["_real"], k)
+
+    class _Sel:
+        def register(self, *a, **k):
+            pass
+
+        def unregister(self, *a, **k):
+            pass
+
+        def select(self, timeout=None):
+            return [1]
+
+        def close(self):
+            pass
+
+    def DefaultSelector(self):
+        return ReadySelectors._Sel()
 
 
 def reset_cookie_jar():
